@@ -267,13 +267,18 @@ struct CamHarness : Harness
         static const char* kinds[] = { "random", "sin", "empty" };
         p.sets("kind", kinds[g.below(3)]);
         char b[128];
-        if (profile == "config") {
+        if (profile == "config" || profile == "oom") {
             p.sets("mode", "config");
+            const bool oom = profile == "oom";
             int cycles = (int)g.range(1, 4);
             for (int c = 0; c < cycles; ++c) {
-                int nsets = (int)g.range(1, 2);
-                for (int i = 0; i < nsets; ++i)
-                    p.ops.push_back(gen_set(g, false));
+                int nsets = (int)g.range(1, oom ? 3 : 2);
+                for (int i = 0; i < nsets; ++i) {
+                    std::string st = gen_set(g, false);
+                    if (oom && g.chance(0.35))
+                        st += g.chance(0.5) ? " af=1" : " af=2";
+                    p.ops.push_back(st);
+                }
                 p.ops.push_back("start");
                 int nf = (int)g.range(1, 4);
                 for (int i = 0; i < nf; ++i)
@@ -320,7 +325,23 @@ struct CamHarness : Harness
         props.offset.y = (uint32_t)op.i("oy", 0);
         props.exposure_time_us = (float)op.i("exp", 0);
         props.input_triggers.frame_start.enable = (uint8_t)op.i("trig", 0);
+        // af=k: the k-th allocation the camera asks for during this set is
+        // refused
+        const int af = (int)op.i("af", 0);
+        if (af > 0)
+            simseam::guard_fail_nth(af);
         enum DeviceStatusCode rc = camera_set(c.cam, &props);
+        const bool oom = simseam::guard_fail_fired();
+        simseam::guard_fail_nth(0);
+        if (oom) {
+            // Whether the set reports the failure and what is in effect
+            // afterwards is not judged; what the camera does with its buffers
+            // from here on is (the guard allocator and ASan see a double
+            // free, a use after free or a NULL buffer).
+            probe("reach.set_with_refused_allocation");
+            c.configured = false;
+            return rc == Device_Ok;
+        }
         int bin = (int)op.i("bin", 1);
         if (bin == 0)
             bin = 1; // the HAL maps 0 to 1
@@ -598,15 +619,20 @@ struct Reg
           "clamping boundaries, offset, exposure, trigger) plus a scheduling "
           "configuration; non-trivial = at least one configuration accepted "
           "and one frame fetched; distinct = distinct run fingerprint";
-        c.profiles = { { "config", 8000, 160000, false } };
+        c.profiles = { { "config", 8000, 160000, false },
+                       { "oom", 1500, 30000, true } };
         c.assumptions = {
             "set is only issued while the camera is stopped",
+            "profile oom refuses one of the buffer allocations inside some "
+            "sets; what such a set returns and leaves in effect is not "
+            "judged, memory safety of everything that follows is",
             "binning outside {1,2,4,8} that the camera accepts is only "
             "checked for memory safety",
             "the bin2 variant is the one /repo's build selects (-mavx2)"
         };
         c.reach_probes = { "reach.binning_gt_1", "reach.shape_clamped",
-                           "n.sets_rejected" };
+                           "n.sets_rejected",
+                           "reach.set_with_refused_allocation" };
         register_check(c);
 
         c.property = "C18";
